@@ -42,7 +42,7 @@ def RULE(tier):
         f"from_sequence(npartitions=2 | partition_size=1,2) x {len(variants(tier))} operation variants: map (unary, extra arg, kwarg, second bag), "
         "starmap, filter, remove, map_partitions (1-2 bags, extra arg), pluck (index, key, default, list), flatten, distinct (key fn / str key), "
         "frequencies (sort), topk (k, key), fold (add/max/set-union, initial), reduction, foldby (initial, combine_initial), groupby "
-        "(tasks with max_branch None|2, disk with npartitions None|1|2; 2 groupers), join (list / delayed / 1-partition bag), product, "
+        "(tasks with max_branch None|2, disk with npartitions None|1|2 and blocksize 2|64; 2 groupers), join (list / delayed / 1-partition bag), product, "
         "accumulate (initial), take (k, npartitions 1|2|-1), repartition (npartitions 1..4, partition_size), zip, concat, "
         "sum/max/min/any/all/count/mean/var/std (ddof) -- each x split_every {None,2} where it applies.  Oracle = plain Python on the "
         "concatenated sequence. non-trivial = >= 2 partitions."
@@ -156,7 +156,9 @@ def variants(tier):
     v += [("reduction", f, se) for f in ("sum", "len", "min") for se in ses]
     v += [("foldby", init, cinit, se) for init in (False, True) for cinit in (False, True) for se in ses]
     v += [("groupby", g, "tasks", mb) for g in ("mod2", "ident") for mb in (None, 2)]
-    v += [("groupby", g, "disk", np_) for g in ("mod2", "ident") for np_ in (None, 1, 2)]
+    # disk shuffle: blocksize (elements per spill block) 2 forces several blocks per partition; the default 2**20 is not enumerated
+    # because toolz.partition_all(2**20, ...) costs ~60 ms of CPU per partition regardless of the data
+    v += [("groupby", g, "disk", np_, bs) for g in ("mod2", "ident") for np_, bs in ((None, 2), (1, 2), (2, 2), (None, 64))]
     v += [("join", kind, o, on) for kind in ("list", "delayed", "bag1") for o in range(len(OTHERS)) for on in ("ident", "mod2")]
     v += [("product", l2) for l2 in range(len(LAY2))] + [("product", "self")]
     v += [("accumulate", False), ("accumulate", True)]
@@ -415,7 +417,7 @@ def plan(var, seq, lay):
         if var[2] == "tasks":
             mk = lambda: B().groupby(g, shuffle="tasks", max_branch=var[3])  # noqa: E731
         else:
-            mk = lambda: B().groupby(g, shuffle="disk", npartitions=var[3])  # noqa: E731
+            mk = lambda: B().groupby(g, shuffle="disk", npartitions=var[3], blocksize=var[4])  # noqa: E731
 
         def ref_groupby():
             d = collections.defaultdict(list)
@@ -520,7 +522,20 @@ def known_class(case, failure):
     return None
 
 
+def setup():
+    import dask
+
+    dask.config.set(scheduler="sync")  # Bag's default is the multiprocessing scheduler; take()/repartition(size) compute internally
+
+
 def run_case(case, ctx):
+    import dask
+
+    with dask.config.set(scheduler="sync"):
+        _run_case(case, ctx)
+
+
+def _run_case(case, ctx):
     var, seq, lay = case
     name = var[0]
     npart = lay_nparts(lay, len(seq))
